@@ -16,7 +16,8 @@
 (*                  a time, in index order; the result is the run-length    *)
 (*                  encoding (key, count) of the non-empty keys, ascending. *)
 (*   MergeClosed    AggregateValue<HistogramClosed>::insert: every closed   *)
-(*                  observation (reported value, count) is recorded again.  *)
+(*                  observation (reported value, count n) is recorded again *)
+(*                  as n observations of that value - for every n.          *)
 (*                                                                         *)
 (* Property layer (what C11 says): Conservation, Quiescent, Ascending,      *)
 (* FixedPoint below.                                                        *)
@@ -129,6 +130,12 @@ Quiescent == (dptr = Len(KeySeq) + 1 /\ ~dirty) => (Total(snap) + emitted = befo
 Ascending == \A i \in 1..Len(out) : out[i][2] > 0 /\ (i > 1 => out[i - 1][1] < out[i][1])
 \* re-aggregating a closed histogram into a fresh one of the same strategy changes nothing
 FixedPoint == dptr = 0 => Rle(merged) = out
+\* ... and for EVERY count: MergeClosed records the closed observation (value Mid(k), n occurrences) as n
+\* observations of the value total / n = Mid(k); the key it lands in does not depend on n.  (HistogramTable
+\* checks Bucket(Classify(Mid(b))) = b for all 976 buckets.)  The code computes total / n in f64: the conformance
+\* check re-aggregates every bucket below scaled 64 - where Mid(b) = Lower(b), so that one ulp less is another
+\* bucket - with every count 1..256 and requires the reported values to be exactly unchanged.
+FixedPointAnyCount == \A k \in Keys : ReKey(k) = k
 TypeOK == /\ store \in [Keys -> Nat] /\ snap \in [Keys -> Nat] /\ dptr \in 0..(Len(KeySeq) + 1)
-HInv == TypeOK /\ Conservation /\ Quiescent /\ Ascending /\ FixedPoint
+HInv == TypeOK /\ Conservation /\ Quiescent /\ Ascending /\ FixedPoint /\ FixedPointAnyCount
 =============================================================================
